@@ -8,18 +8,18 @@ LEVEL_TEXT = ("Coq theorems in an abstract ordered *-field (Gaussian rationals, 
               "definiteness the model of LEVINSON never raises, every stage error is > 0 and every |k|^2 < 1 (LDL^H reading); hence "
               "the model of aryule = LEVINSON(CORRELATION(biased)) returns a > 0 variance, |k| < 1, solves the Yule-Walker equations of "
               "the biased lags, these lags are the only ones consistent with the returned (a, P), every root of the polynomial lying in "
-              "the field has modulus < 1, the least-squares normal equations on corrmtx('autocorrelation') are the same equations with a "
+              "the field - and, for data in the Gaussian rationals or in C, every complex root (instance at Coquelicot's C) - has modulus < 1, the least-squares normal equations on corrmtx('autocorrelation') are the same equations with a "
               "unique solution attaining the minimum N*P, and lpc (real data) returns the same a with error P*N/(N-1). "
               "Tie: exact in-Coq correspondence of aryule / pyule.ar / lpc with the Gallina model on dyadic inputs (all norms the code "
               "accepts and rejects, both allow_singularity values, order >= N), and a property-directed search on the implementation.")
 TRUSTED = ["Coq 8.16.1 kernel + vm_compute (no native_compute)",
+           "aryule_stable_complex / aryule_stable_C only: the three standard-library axioms of the real numbers (sig_forall_dec, sig_not_dec, functional_extensionality_dep) via Coquelicot's C; every other theorem is axiom-free",
            "hand-written models coq/Model/Yule.v, Corr.v, Levinson.v, tied to yulewalker.py/correlation.py/levinson.py/lpc.py by the correspondence run only",
            "numpy.fft inside lpc is modelled by its exact-arithmetic specification (lag sums; transform length >= 2N-1), not verified",
            "pyule: only the stored .ar/.reflection are modelled (the PSD goes through arma2psd: C15/C01 machinery)",
            "Python harness (snapshot, generators, float->dyadic conversion, numpy.linalg oracles of the search)"]
-UNPROVED = ["stability for roots outside the data's field when that field is not algebraically closed: the abstract theorem covers every "
-            "root lying in the ordered *-field (all of them over C); an instance at C is not built, numpy.roots + Schur-Cohn search instead",
-            "lpc's zero-padding branch (N > len(x)-1) and lpc on complex data (takes real(R)): correspondence only",
+UNPROVED = ["lpc's zero-padding branch (N > len(x)-1) and lpc on complex data (takes real(R)): correspondence only",
+            "pyule's PSD values (arma2psd/FFT path): positivity is checked by the search only",
             "rounding: the theorems are about exact arithmetic; the binary64 code is covered by correspondence/search with 1e-9*kappa tolerances"]
 ASSUMPTIONS = ["exact arithmetic in the theorems", "data not identically zero and order < N as in the property statement",
                "inputs of the correspondence run are dyadic rationals with few significant bits"]
